@@ -1,4 +1,6 @@
 import Bmc.Proto.Metrics
+import Bmc.Lemmas.MetricsWire
+import Bmc.Proofs.C05.Core
 /-! # C18 — exported metrics account exactly for what happened (property theorems only)
 
 For EVERY history of dials, session opens/closes and commands (each with any sequence of per-attempt outcomes):
@@ -170,6 +172,37 @@ theorem gauges_do_not_drift (m : M) (h : List Ev)
     (runFrom m h).sessOpen = m.sessOpen ∧ (runFrom m h).connOpen = m.connOpen := by
   obtain ⟨_, _, _, _, _, _, a7, _, _, a10⟩ := conservation m h
   rw [a7, a10, hs, hc]; omega
+
+-- tie to the byte-level loop ------------------------------------------------------------------------------------------
+open Bmc Bmc.Wire Bmc.Crypto Bmc.Proto in
+/-- WIRE ACCOUNTING: the abstract per-attempt outcomes the theorems above quantify over are a function `attOf` of the
+    session keys, the command and the BYTES of each reply; with it, for every in-session command and every reply script
+    (any bytes, any length) under any lawful cipher: the retry counter grows by the number of datagrams the byte-level
+    loop model transmits beyond the first (plus the one closure run that notices the expired context when the script
+    runs out), and the failure counter grows exactly when the loop returns no response or the body does not decode -/
+theorem wire_accounting (C : Ops) (hC : C.Lawful) (c : Cmd) (hf : c.reqFails = false) (s : Sess) (hs : s.inbound < 4294967296)
+    (ivs : List Bytes) (script : List Outcome) (hl : script.length ≤ ivs.length) (m : M) (name : String) (b : Bool) :
+    let r := sendLoop C c s ivs script
+    let m' := command m name true b (script.map (attOf C s.keys c))
+    m'.retries = m.retries + (r.2.1.length + (if r.2.2 = .ctxExpired then 1 else 0) - 1) ∧
+    (∀ n, cnt n m'.cmdFailures = cnt n m.cmdFailures +
+      (if name = n ∧ ¬((match r.2.2 with | .ok _ _ => true | _ => false) = true ∧ b = true) then 1 else 0)) ∧
+    (∀ n, cnt n m'.cmdAttempts = cnt n m.cmdAttempts + (if name = n then 1 else 0)) := by
+  have hn : noCrash C s.keys c script := by
+    intro d _ hcr
+    have := Bmc.Proofs.C05.decodeChain_total C hC s.keys.sess (GoSlice.ofBytes d)
+    unfold classify at hcr
+    generalize hp : onReply C s.keys.sess (GoSlice.ofBytes d) = p at hcr this
+    obtain ⟨s2, how⟩ := p
+    cases how <;> simp_all [view]
+    split at hcr <;> cases hcr
+  obtain ⟨h1, h2, _, _⟩ := sendLoop_spec C c hf s hs ivs script hl
+  obtain ⟨c1, c2, c3, _⟩ := command_laws m name true b (script.map (attOf C s.keys c))
+  simp only []
+  rw [c3, closureRuns_wire C s.keys c script hn, h1, h2]
+  refine ⟨by simp, fun n => ?_, c1⟩
+  rw [c2 n, succeeds_wire C s.keys c script hn]
+  first | rfl | congr
 
 example : (run [.dialOk, .openOk, .cmd "Get Device ID" true true [.junk, .temp 0xC0, .final 0], .closeSess [.final 0], .closeConn]).retries = 2 := by
   decide
